@@ -81,6 +81,8 @@ async fn peer_loop<T: AsyncReadExt + AsyncWriteExt + Unpin>(mut t: T, script: Ve
 enum Op {
     Call(Request<'static>, bool),
     SetSlave(u8),
+    /// set_timeout(Some(ms)) / reset_timeout() on the blocking context
+    SetTimeout(Option<u64>),
 }
 
 fn parse_ops(tokens: &[&str]) -> Option<(Vec<Op>, Vec<Peer>)> {
@@ -93,6 +95,7 @@ fn parse_ops(tokens: &[&str]) -> Option<(Vec<Op>, Vec<Peer>)> {
                 peers.push(parse_peer(p)?);
             }
             ["slave", n] => ops.push(Op::SetSlave(n.parse().ok()?)),
+            ["timeout", t] => ops.push(Op::SetTimeout(if *t == "-" { None } else { Some(t.parse().ok()?) })),
             _ => return None,
         }
     }
@@ -136,7 +139,7 @@ pub fn run_live(is_sync: bool, tokens: &[&str]) -> String {
         return "ERR live".into();
     }
     let proto = tokens[0];
-    let timeout: Option<Duration> = if tokens[1] == "-" { None } else { tokens[1].parse().ok().map(Duration::from_millis) };
+    let mut timeout: Option<Duration> = if tokens[1] == "-" { None } else { tokens[1].parse().ok().map(Duration::from_millis) };
     let slave: Option<u8> = if tokens[2] == "-" { None } else { tokens[2].parse().ok() };
     let Some((ops, peers)) = parse_ops(&tokens[3..]) else {
         return "ERR liveops".into();
@@ -149,7 +152,8 @@ pub fn run_live(is_sync: bool, tokens: &[&str]) -> String {
     let (addr_tx, addr_rx) = std::sync::mpsc::channel::<String>();
     let log2 = log.clone();
     let proto2 = proto.to_string();
-    let linger = timeout.map_or(Duration::from_millis(250), |t| t + Duration::from_millis(300));
+    let longest = ops.iter().filter_map(|o| if let Op::SetTimeout(Some(ms)) = o { Some(Duration::from_millis(*ms)) } else { None }).chain(timeout).max();
+    let linger = longest.map_or(Duration::from_millis(250), |t| t + Duration::from_millis(300));
     let peer_thread = std::thread::spawn(move || {
         let rt = tokio::runtime::Builder::new_current_thread().enable_all().build().unwrap();
         rt.block_on(async move {
@@ -218,6 +222,14 @@ pub fn run_live(is_sync: bool, tokens: &[&str]) -> String {
                     ctx.set_slave(Slave(*n));
                     outs.push("ok".into());
                 }
+                Op::SetTimeout(t) => {
+                    match t {
+                        Some(ms) => ctx.set_timeout(Duration::from_millis(*ms)),
+                        None => ctx.reset_timeout(),
+                    }
+                    timeout = ctx.timeout();
+                    outs.push(format!("ok t={}", ctx.timeout().map_or("-".to_string(), |d| d.as_millis().to_string())));
+                }
                 Op::Call(req, typed) => {
                     let t0 = Instant::now();
                     let res = if *typed { typed_dispatch!(ctx, req,) } else { show_call(&ctx.call(req.clone())) };
@@ -254,6 +266,11 @@ pub fn run_live(is_sync: bool, tokens: &[&str]) -> String {
                     Op::SetSlave(n) => {
                         ctx.set_slave(Slave(*n));
                         outs.push("ok".into());
+                    }
+                    Op::SetTimeout(t) => {
+                        // the asynchronous client has no timeout of its own: the caller wraps each call
+                        timeout = t.map(Duration::from_millis);
+                        outs.push(format!("ok t={}", t.map_or("-".to_string(), |ms| ms.to_string())));
                     }
                     Op::Call(req, typed) => {
                         let fut = async {
